@@ -146,6 +146,12 @@ class CacheWorld:
                 c["age"] += dt
         elif op == "list":
             return self._list(d, step["form"])
+        elif op == "peek":
+            # a request that looks at the directory without listing it (HTTP HEAD, Gopher+ item info): it must not
+            # leave a cache entry behind (nothing was rendered) nor disturb an existing one
+            r = drive.serve(self.cfg, clients.encode(step["form"], d.encode()), tls=clients.FORMS[step["form"]][0])
+            if r.escaped is not None or r.exception_classes():
+                return [Fail("peek-error", "%s on %s raised %r" % (step["form"], d, r.logs[-1:]))]
         return []
 
     def _reference(self, tree, dsel, form):
@@ -260,6 +266,18 @@ class CacheMachine(RuleBasedStateMachine):
     @rule(d=st.sampled_from(DIRS), idx=st.integers(0, 5), title=title_st)
     def sidecar(self, d, idx, title):
         self._do({"op": "sidecar", "dir": d, "idx": idx, "title": title})
+
+    @rule(d=st.sampled_from(DIRS), form=st.sampled_from(["head", "gbang"]))
+    def peek(self, d, form):
+        self._do({"op": "peek", "dir": d, "form": form})
+
+    @rule(d=st.sampled_from(DIRS), form=st.sampled_from(["head", "gbang"]), title=title_st, lf=st.sampled_from(FORMS))
+    def decorate_peek_list(self, d, form, title, lf):
+        """metadata edit, then a non-listing request on a cold or expired cache, then a listing"""
+        self._do({"op": "names", "dir": d, "idx": 0, "title": title, "override": True, "newlink": True, "numb": 1})
+        self._do({"op": "advance", "dt": 2500})
+        self._do({"op": "peek", "dir": d, "form": form})
+        self._do({"op": "list", "dir": d, "form": lf})
 
     @rule(dt=st.sampled_from([1, 30, 200, 450, 600, 990, 1010, 2500]))
     def advance(self, dt):
